@@ -117,7 +117,7 @@ func (c *Ctx) Emit(line string) string {
 	if !strings.HasPrefix(line, "basis ") && !strings.HasPrefix(line, "case ") && out != "bad-op" {
 		c.distinct[hashStr(line)] = struct{}{}
 	}
-	if len(c.samples) < 3 || (c.N%997 == 0 && len(c.samples) < 8) {
+	if !strings.HasPrefix(line, "basis ") && !strings.HasPrefix(line, "case ") && (len(c.samples) < 3 || (c.N%997 == 0 && len(c.samples) < 8)) {
 		c.samples = append(c.samples, line+" => "+clip(out, 300))
 	}
 	return out
